@@ -17,7 +17,7 @@ pub fn def() -> PropDef {
         nontrivial,
         rule: "generated actor trees up to depth 3 / 6 nodes; children registered in started() or from handlers under () (add_child), Msg and Topic1 (register_child), some of them also held from outside; broadcasts of each type at random positions; the root (and sometimes an inner node) terminated by every cause (stop, halt, Context::stop, last handle dropped, started error, handler panic, task cancellation) at any time; x seeded schedules; non-trivial = depth >= 2 and the parent died while a child still had accepted messages to handle, or a broadcast reached two or more children; distinct = distinct order of client-op and callback events",
         needed_probes: &["c16_child_outlived_check", "c16_release_checked", "c16_broadcast_checked", "c16_external_holder", "c16_depth3", "c16_parent_failed"],
-        quick_runs: 100_000,
+        quick_runs: 200_000,
         thorough_runs: 2_000_000,
         block: 1,
         flavours: &["tokio"],
